@@ -4,7 +4,7 @@
 # passes without), runs the given checks (default: the property's own) against it, and files it under /verif/seeded/.
 set -u
 P="$1"; K="$2"; shift 2
-CHECKS="${*:-${P%b}}"
+CHECKS="${*:-${P%[a-z]}}"
 WT="/tmp/seed-$P"; OUT="$WT/out/$K"; DEST="/verif/seeded/$P-$K"
 export GOFLAGS=-mod=mod GOPROXY=off GOSUMDB=off GOTOOLCHAIN=local
 [ -f "$OUT/patch.diff" ] || { echo "no patch at $OUT"; exit 2; }
